@@ -452,8 +452,7 @@ class FormulaMaterializer(metaclass=FormulaMaterializerMeta):
                             [
                                 evaled_factor.values
                                 for evaled_factor in evaled_factors
-                                if evaled_factor.metadata.kind.value
-                                is Factor.Kind.CONSTANT
+                                if evaled_factor.metadata.kind is Factor.Kind.CONSTANT
                             ],
                             1,
                         ),
